@@ -50,6 +50,10 @@ type result struct {
 	Err      string       `json:"err"`      // an error in the setup / spawning forms
 	States   []string     `json:"states,omitempty"`
 	Micros   int64        `json:"us"`
+	// lock probe (kind "lockprobe"): did the probed form wait for the package mutex while the harness held it
+	Blocked bool   `json:"blocked,omitempty"`
+	Probed  bool   `json:"probed,omitempty"`
+	Value   string `json:"value,omitempty"`
 }
 
 type vyield struct{ slip.Function }
@@ -207,7 +211,126 @@ func toEntry(o slip.Object) (e logEntry) {
 	return
 }
 
+// probeGoroutine reports the state of the goroutine that evaluates the probed form ("" when it is gone)
+func probeGoroutine() string {
+	buf := make([]byte, 1<<20)
+	buf = buf[:runtime.Stack(buf, true)]
+	for _, blk := range strings.Split(string(buf), "\n\n") {
+		if !strings.Contains(blk, "c17.evalProbe") {
+			continue
+		}
+		lb, rb := strings.IndexByte(blk, '['), strings.IndexByte(blk, ']')
+		if lb < 0 || rb < lb {
+			continue
+		}
+		st := blk[lb+1 : rb]
+		if i := strings.IndexByte(st, ','); i >= 0 {
+			st = st[:i]
+		}
+		if os.Getenv("VERIF_C17_VERBOSE") != "" && strings.Contains(st, "Mutex") {
+			fmt.Fprintln(os.Stderr, blk)
+		}
+		return st
+	}
+	return ""
+}
+
+//go:noinline
+func evalProbe(scope *slip.Scope, code slip.Code, done chan string) {
+	val := ""
+	defer func() {
+		if rec := recover(); rec != nil {
+			val = fmt.Sprintf("error: %v", rec)
+		}
+		done <- val
+	}()
+	var v slip.Object
+	for _, o := range code {
+		v = scope.Eval(o, 0)
+	}
+	val = slip.ObjectString(v)
+}
+
+// runLockProbe: the forms of Setup are evaluated, the form Runs[0] is read and compiled; then the harness takes the
+// mutex of the current package the way every writer of its tables does (Package.EachVarName runs its callback with
+// the mutex held) and, holding it, lets another goroutine evaluate the form.  Either that goroutine finishes - the
+// form does not need the mutex - or it ends up waiting in sync.Mutex.Lock: it does.  No timing is involved: the
+// state is read from the goroutine dump.
+func runLockProbe(j job) (r result) {
+	r.ID = j.ID
+	slip.CurrentPackage = &slip.UserPkg
+	scope := slip.NewScope()
+	scope.Let(slip.Symbol("x"), slip.Fixnum(1))
+	for _, src := range j.Setup {
+		if o := common.EvalIn(scope, src); o.Err != "" {
+			r.Err = fmt.Sprintf("%s: %s: %s", src, o.Err, o.Msg)
+			return
+		}
+	}
+	var code slip.Code
+	func() {
+		defer func() {
+			if rec := recover(); rec != nil {
+				r.Err = fmt.Sprintf("read: %v", rec)
+			}
+		}()
+		code = slip.ReadString(j.Runs[0], scope)
+		// a top-level list is turned into a function object when it is evaluated (FindFunc: the function table):
+		// do that now, the probe is about what the evaluation of the operation itself needs
+		for i, o := range code {
+			if l, ok := o.(slip.List); ok && len(l) > 0 {
+				code[i] = slip.CompileList(l)
+			}
+		}
+	}()
+	if r.Err != "" {
+		return
+	}
+	done := make(chan string, 1)
+	first := true
+	finished := false
+	slip.UserPkg.EachVarName(func(string) {
+		if !first {
+			return
+		}
+		first = false
+		go evalProbe(scope, code, done)
+		deadline := time.Now().Add(5 * time.Second)
+		for time.Now().Before(deadline) {
+			select {
+			case r.Value = <-done:
+				finished = true
+				r.Probed = true
+				return
+			default:
+			}
+			switch probeGoroutine() {
+			case "sync.Mutex.Lock", "semacquire":
+				r.Blocked, r.Probed = true, true
+				return
+			}
+			time.Sleep(100 * time.Microsecond)
+		}
+		r.Hang = true
+	})
+	if first {
+		r.Err = "the package has no variable: the mutex was never held"
+		return
+	}
+	if !finished {
+		select {
+		case r.Value = <-done:
+		case <-time.After(5 * time.Second):
+			r.Hang = true
+		}
+	}
+	return
+}
+
 func runJob(j job) (r result) {
+	if j.Kind == "lockprobe" {
+		return runLockProbe(j)
+	}
 	t0 := time.Now()
 	r.ID = j.ID
 	n := len(j.Runs)
@@ -362,6 +485,7 @@ func Worker(ctx *common.Ctx) {
 	for _, src := range []string{
 		"(defclass c17cell () ((v :initform 0)))",
 		"(defflavor c17fcell ((v 0)) () :gettable-instance-variables :settable-instance-variables)",
+		"(defflavor c17sflav () ())",
 	} {
 		if o := common.EvalIn(s, src); o.Err != "" {
 			fmt.Fprintln(os.Stderr, "worker setup failed:", src, o.Err, o.Msg)
